@@ -82,7 +82,7 @@ def default_knobs(rng, **over):
         ndocs=rng.choice([0, 1, 1, 2, 2, 3]),
         ndefs=rng.randint(1, 7),
         ref_rate=rng.choice([0.25, 0.4, 0.55]),
-        nested_id_rate=rng.choice([0.0, 0.15, 0.3, 0.5]),
+        nested_id_rate=rng.choice([0.0, 0.2, 0.4, 0.6]),
         unresolvable_rate=rng.choice([0.0, 0.0, 0.0, 0.06, 0.15]),
         store_rate=rng.choice([0.0, 0.0, 0.3, 0.6]),
         custom_types=rng.random() < 0.25,
@@ -265,7 +265,7 @@ class WorldGen(object):
         if p < k.ref_rate:
             r = self.ref(base, index, consumed)
             if r is not None:
-                if rng.random() < k.nested_id_rate * 0.3:
+                if rng.random() < k.nested_id_rate * 0.6:
                     nid = self.nested_id(base)
                     if nid is not None:
                         # id next to $ref still changes the base for that $ref
